@@ -28,15 +28,22 @@ CHECK = {
         "CELERITAS_DEBUG is off: library assertions are not an oracle; malformed results are "
         "detected by the harness's own tree analysis before any library visitor is called",
     ],
-    "bounds": {"quick": {"effective_inserts_labelling0": 6, "effective_inserts_labelling1": 5,
+    "bounds": {"quick": {"effective_inserts_per_labelling": 6, "labellings": 2,
                          "surfaces": 4, "operands": 3},
-               "thorough": {"effective_inserts_labelling0": 7, "effective_inserts_labelling1": 6,
-                            "surfaces": 4, "operands": 3,
-                            "note": "at depth-7 leaves De Morgan volume sets are {}, {i}, all "
-                                    "(pairs up to depth 6)"}},
+               "thorough": {"effective_inserts_per_labelling": 7, "labellings": 2,
+                            "surfaces": 4, "operands": 3, "asan_part_effective_inserts": 5,
+                            "note": "labelling 1: the depth-7 leaves get the encoder checks only "
+                                    "(postfix/flagger/string/sense: the operations that read surface "
+                                    "ids); simplify/replace/De Morgan run there up to depth 6 and "
+                                    "under labelling 0 up to depth 7; no insert transitions are "
+                                    "applied at depth-K leaves in either tier"}},
     "parts": [
         {"name": "csg", "harness": "c10_csg", "flavour": "rel",
          "shards": {"quick": 16, "thorough": 16}, "deadline": {"quick": 100, "thorough": 1100}},
+        # thorough only: the same exploration with K=5 under AddressSanitizer (out-of-range node /
+        # face indices inside the library's own visitors)
+        {"name": "csg_asan", "harness": "c10_csg", "flavour": "asan", "tiers": ("thorough",),
+         "shards": {"thorough": 16}, "deadline": {"thorough": 600}},
     ],
 }
 
